@@ -22,6 +22,8 @@ func c01ScopeProds(full bool) []enum.Prod {
 			node("list2", 2, func(k []V) V { return form("list", k[0], k[1]) }),
 			node("if", 3, func(k []V) V { return form("if", k[0], k[1], k[2]) }),
 			node("do-def-x", 2, func(k []V) V { return form("do", form("def", sym("x"), k[0]), k[1]) }),
+			node("apply0", 1, func(k []V) V { return form("apply", k[0], form("list")) }),
+			node("thunk-def-x", 1, func(k []V) V { return form("fn", model.Vec(), form("def", sym("x"), k[0])) }),
 		)
 	}
 	return ps
